@@ -12,6 +12,11 @@ CHECKS = {
    text='Props/C02.v: over any commutative semiring variable elimination equals the iterated sum of the product for EVERY elimination list; the uncached project path and (through C01_exact) the cached path both return the marginal of the single explicit joint scaled to the total, so the cache is irrelevant; answers sum to the total; krondot is the Kronecker query applied to the joint. Each run compares every code path (project cached/uncached in any requested order incl. () and full, calculate_many_marginals, krondot, datavector, after save+load) under random cache-populating interleavings with the exact joint marginal computed by the extracted model.',
    design='4/C02',
    note='partial: the chaining of conditionals in calculate_many_marginals along tree paths is compared with the joint per run, not proved; pickling is exercised, not modelled. Axiom: functional_extensionality_dep. Cached-path theorem inherits the junction-tree conditions of C01.'),
+ 'C04': dict(
+   technique='Coq proof over exact rationals (second-order expansion: gradient = derivative, convexity, adjointness; grouping lemmas) + differential correspondence of the whole objective against _setup/_marginal_loss',
+   text='Props/C04.v: for every query matrix, answers, noise scale, point and direction the model loss satisfies loss(x+d) = loss(x) + <grad x, d> + 1/2|cQd|^2 exactly (so the gradient used is the derivative and the loss is convex), the transpose used is the adjoint, and a measurement is grouped with a clique containing its projection. The model objective sums over the supplied measurement list (each once). Every run compares loss and every gradient entry of the code (all spellings: dense/sparse/operator/None, tuple/list/str; L2 and L1; earlier _setup calls on the same engine) with the model on exact rationals, and the smoothness constant with eigvalsh of the dense Hessian.',
+   design='4/C04',
+   note='partial: the smoothness bound is an eigenvalue statement checked numerically per case (not a theorem). Theorems closed under the global context. scipy sparse/LinearOperator products are external (compared through the result).'),
  'C07': dict(
    technique='Coq proof over a model TRANSLATED from mechanisms/cdp2adp.py on every run (Python ast -> Gallina) + validation of the translation against the running code',
    text='Gen/Cdp2adp_gen.v is regenerated from the source on every run and Props/C07.v is re-checked against it: for every number type (floats included) the returned rho/eps pass the code\'s own test (sound) and the other bisection end fails it; on the reals cdp_delta equals the published Renyi-order bound at an alpha in [1.01, amax0], the tested expression is the derivative of the log-bound (Coquelicot), is increasing, the optimum is bracketed at every iteration with width (amax0-1.01)/2^n, and the bound is monotone in rho and eps for every order. The generated functions are executed on floats against the real functions, and a property oracle (exact Gaussian delta, golden-section optimum, monotonicity, round trips) searches the code for a failing input.',
